@@ -39,6 +39,9 @@ type Outcome struct {
 	Evals      int // evaluations inside this run if more than one (enumerations)
 	Hashes     []uint64
 	Inconcl    int
+	// Witness records the one thing the tape cannot decide (Go map iteration order where it changes
+	// the number of park points, i.e. MSETNX's early exit); runs are compared/replayed only under equal witnesses.
+	Witness string
 }
 
 func (o *Outcome) violate(sig, format string, args ...any) {
@@ -91,6 +94,7 @@ type Replay struct {
 	Log      []string `json:"log"`
 	Minimal  bool     `json:"minimised"`
 	OrigLen  int      `json:"original_tape_len"`
+	Witness  string   `json:"map_order_witness,omitempty"`
 }
 
 // WorkerResult is what a worker process writes for the driver.
@@ -366,6 +370,9 @@ func Worker(t *testing.T) {
 		tape := sim.NewTape(seed, prop, run)
 		o := runOnce(t, c, tape, tier)
 		res.Runs++
+		if dp := os.Getenv("VERIF_DUMPLOG"); dp != "" {
+			os.WriteFile(fmt.Sprintf("%s.%d", dp, run), []byte(strings.Join(o.Log, "\n")+"\n"), 0o644)
+		}
 		if logHashes {
 			fmt.Fprintf(&allHashes, "%d:%s:%s;", run, o.LogHash, strings.Join(sigs(o), ","))
 		}
@@ -398,6 +405,16 @@ func Worker(t *testing.T) {
 		if determEvery > 0 && i%determEvery == 0 && c.Bubble {
 			tp2 := sim.NewReplayTape(tape.Values())
 			o2 := runOnce(t, c, tp2, tier)
+			for try := 0; try < 16 && o2.Witness != o.Witness; try++ {
+				res.Stats["determinism_retries_for_map_order"]++
+				o2 = runOnce(t, c, sim.NewReplayTape(tape.Values()), tier)
+			}
+			if o2.Witness != o.Witness {
+				continue
+			}
+			if dp := os.Getenv("VERIF_DUMPLOG"); dp != "" && o2.LogHash != o.LogHash {
+				os.WriteFile(fmt.Sprintf("%s.%d.second", dp, run), []byte(strings.Join(o2.Log, "\n")+"\n"), 0o644)
+			}
 			if o2.LogHash != o.LogHash || strings.Join(sigs(o2), ",") != strings.Join(sigs(o), ",") {
 				res.DetermBad = append(res.DetermBad, fmt.Sprintf("run %d: %s vs %s", run, o.LogHash, o2.LogHash))
 			} else {
@@ -415,7 +432,7 @@ func Worker(t *testing.T) {
 			vals := tape.Values()
 			name := fmt.Sprintf("%s/%s-seed%d-run%d-%016x.json", replayDir, prop, seed, run, hash64(v.Sig))
 			// the unminimised replay is on disk before minimisation starts (a candidate may kill the worker)
-			if err := writeJSON(name, Replay{Property: prop, Seed: seed, Run: run, Tier: tier, Tape: vals, Sig: v.Sig, Detail: v.Detail, LogHash: o.LogHash, Log: o.Log, OrigLen: len(vals)}); err == nil {
+			if err := writeJSON(name, Replay{Property: prop, Seed: seed, Run: run, Tier: tier, Tape: vals, Sig: v.Sig, Detail: v.Detail, LogHash: o.LogHash, Log: o.Log, OrigLen: len(vals), Witness: o.Witness}); err == nil {
 				fv.Replay = name
 				if outPath != "" {
 					if f, err := os.OpenFile(outPath+".found", os.O_APPEND|os.O_CREATE|os.O_WRONLY, 0o644); err == nil {
@@ -432,7 +449,7 @@ func Worker(t *testing.T) {
 			if mo == nil || !hasSig(mo, v.Sig) {
 				min, mo = vals, o
 			}
-			rp := Replay{Property: prop, Seed: seed, Run: run, Tier: tier, Tape: min, Sig: v.Sig, Detail: detailOf(mo, v.Sig), LogHash: mo.LogHash, Log: mo.Log, Minimal: len(min) < len(vals), OrigLen: len(vals)}
+			rp := Replay{Property: prop, Seed: seed, Run: run, Tier: tier, Tape: min, Sig: v.Sig, Detail: detailOf(mo, v.Sig), LogHash: mo.LogHash, Log: mo.Log, Minimal: len(min) < len(vals), OrigLen: len(vals), Witness: mo.Witness}
 			if err := writeJSON(name, rp); err == nil {
 				fv.Replay = name
 			}
@@ -478,6 +495,10 @@ func replayFile(t *testing.T, c *Check, path string, outPath string) {
 	}
 	tape := sim.NewReplayTape(rp.Tape)
 	o := runOnce(t, c, tape, tier)
+	for try := 0; try < 64 && o.Witness != rp.Witness; try++ {
+		// Go map iteration order is the one choice the tape cannot make: re-execute until it matches the recorded one
+		o = runOnce(t, c, sim.NewReplayTape(rp.Tape), tier)
+	}
 	ok := hasSig(o, rp.Sig) && (o.LogHash == rp.LogHash || rp.LogHash == "")
 	res := &WorkerResult{Property: rp.Property, Seed: rp.Seed, Tier: tier, Runs: 1, ReplayOK: &ok, Stats: map[string]int{}}
 	for _, v := range o.Viol {
